@@ -2,7 +2,7 @@ SPEC = dict(
     id="C28",
     bin="c28",
     cases_quick=1600,
-    cases_thorough=60000,
+    cases_thorough=36000,
     level="partial",
     technique="Coq theorems over a Gallina model of decode_full_report on byte lists (every slice expression is checked: out-of-range = None) and of the decode field mapping + PriceFeedPrice::from_chainlink_report + differential correspondence with the Rust functions (blob reported as pointer offset and length; reports built with the third-party encoder, decoded and converted by the real code) + panic probes of the unmodelled third-party decoders under catch_unwind",
     text="decode_full_report is proved total on all byte strings (no slice index out of range, no usize overflow), to fail exactly when the payload is shorter than 128 bytes or the described length word / blob does not lie inside it, and otherwise to return exactly payload[off+32 .. off+32+len] with off / len the big-endian low 8 bytes of the offset / length words (= the ABI-described slice when the high 24 bytes are zero; known class 1 otherwise).  from_chainlink_report is proved total, to reject negative or misordered bid / price / ask, to preserve bid <= price <= ask, and to divide all three by the same 10^k with k = find_divisor_decimals(ask) <= 18 so that they fit u128.",
